@@ -201,7 +201,8 @@ class C13(Prop):
                     "headEmpty": False, "untouched": rest_text == rest_expected,
                     "insEv": tokenize(ins), "docEv": tokenize(headstr), "gen": g}
         if g["kind"] == "mode":
-            deps = [make_dep(H, rnd, hostile=rnd.random() < 0.5, name=f"m{i}", hostile_head=False) for i in range(rnd.randint(0, 3))]
+            # incl. two versions of one name: direct rendering resolves them, and so must the json-mode round trip
+            deps = [make_dep(H, rnd, hostile=rnd.random() < 0.5, name=f"m{i % 2}", hostile_head=False) for i in range(rnd.randint(0, 4))]
             x = H.tags.div("a", H.tags.span(*deps[:1]), *deps[1:], deps[0] if deps else None)
             old = H.html_dependency_render_mode
             try:
